@@ -24,6 +24,7 @@ import (
 	"strings"
 	"time"
 
+	"github.com/krotik/ecal/interpreter"
 	"github.com/krotik/ecal/parser"
 )
 
@@ -251,8 +252,42 @@ func c07Run(payload string) string {
 		sb.WriteString("OK ")
 		c07Tree(&sb, ast)
 		sb.WriteString(" wf=1")
+		tail += c07Consumers(src, ast)
 	}
 	return sb.String() + tail
+}
+
+// consumers -----------------------------------------------------------------------
+//
+// "…so validation, evaluation and pretty printing can walk it": on every returned tree the real
+// PrettyPrint runs, and the source is parsed again through the production entry point
+// ParseWithRuntime with the ECAL runtime provider (instance() attaches a runtime component to
+// every node) followed by Validate - all under recover. An error is fine; a panic is a violation.
+
+func c07Try(what string, f func()) (res string) {
+	defer func() {
+		if e := recover(); e != nil {
+			res = " walk=PANIC:" + what + ":" + strings.ReplaceAll(oneLine(fmt.Sprint(e)), " ", "_")
+		}
+	}()
+	f()
+	return ""
+}
+
+func c07Consumers(src string, ast *parser.ASTNode) string {
+	if r := c07Try("PrettyPrint", func() { parser.PrettyPrint(ast) }); r != "" {
+		return r
+	}
+	return c07Try("ParseWithRuntime+Validate", func() {
+		erp := interpreter.NewECALRuntimeProvider("t", nil, &memLog{})
+		a2, err := parser.ParseWithRuntime("t", src, erp)
+		if err != nil || a2 == nil {
+			panic(fmt.Sprint("ParseWithRuntime with a runtime provider disagrees with Parse: ", err))
+		}
+		if a2.Runtime != nil {
+			a2.Runtime.Validate()
+		}
+	})
 }
 
 // generators --------------------------------------------------------------------
@@ -285,6 +320,10 @@ var c07Corpus = []string{
 }
 
 var c07Bytes = []string{"a", "1", " ", "\n", "\"", "{", "}", "(", ")", "[", "]", ";", ":", "=", ".", "#", "/", "*", "\xff", "\x01"}
+
+// non-ASCII white space / control / digits and exponent forms: where rune-width bookkeeping can go wrong
+var c07Uni = []string{"\u0085", "\u00a0", "\u2028", "\u2029", "\u3000", "\u00b2", "\u0663", "\u2167", "1e+5", "1e+", "1e-", "2.5e3", "1.", ".5", "0x1f",
+	"\u00e9", "a\u00a0b", "1\u00b2", "\u0663\u0664", "\"\u2028\"", "#\u0085", "/*\u00a0*/", "\x80", "\xc2", "\xe2\x80"}
 
 var c07Toks = []string{"a", "1", "\"s\"", "(", ")", "[", "]", "{", "}", ",", ";", ":", ":=", "=", "+", "-", "*",
 	"not", "and", "<", "in", ".", "if", "elif", "else", "for", "func", "return", "try", "except", "as",
@@ -483,6 +522,7 @@ func c07Enum(g *Gen, emit func(kind, src string), riskyOnly bool) {
 	emit("longtail", ") "+strings.Repeat("a ", tailN))
 	emit("longtail", "a b "+strings.Repeat("c ; ", tailN/2))
 	emit("longtail", "if { "+strings.Repeat("x := [ 1 , 2 ] \n", tailN/8))
+	c07LongTails(g, emit)
 	// exhaustive byte strings of length <= 3 over 20 symbols
 	var rec func(prefix string, n int)
 	rec = func(prefix string, n int) {
@@ -514,6 +554,10 @@ func c07Enum(g *Gen, emit func(kind, src string), riskyOnly bool) {
 	}
 	for n := 1; n <= maxTok && !riskyOnly; n++ {
 		recT(nil, n)
+	}
+	if !riskyOnly {
+		c07Inject(g, emit)
+		c07Deep(g, emit)
 	}
 	// mutations of valid programs
 	nMut := 5000
@@ -592,7 +636,8 @@ func c07Enum(g *Gen, emit func(kind, src string), riskyOnly bool) {
 		}
 	}
 	// invalid UTF-8, control characters, random token soup
-	junk := []string{"\xff", "\xc0", "\x80", "\xe2\x82", "\xf0\x9f", "\x00", "\x01", "\x1b", "\x7f", " ", "\xef\xbb\xbf", "é", "\\", "'", "\"", "\r", "\t"}
+	junk := append([]string{}, c07Uni...)
+	junk = append(junk, "\xff", "\xc0", "\x80", "\xe2\x82", "\xf0\x9f", "\x00", "\x01", "\x1b", "\x7f", " ", "\xef\xbb\xbf", "é", "\\", "'", "\"", "\r", "\t")
 	for i := 0; i < nJunk; i++ {
 		var sb strings.Builder
 		for k := g.R.Intn(9); k > 0; k-- {
@@ -607,10 +652,16 @@ func c07Enum(g *Gen, emit func(kind, src string), riskyOnly bool) {
 		}
 		emit("junk", sb.String())
 	}
+	if !riskyOnly {
+		c07Valid(g, emit) // last: consumes randomness, and the first (risky-only) pass skips it
+	}
 }
 
 // c07Tool: `harness C07 -tool <src-hex>…` prints the case line (idx 0) of a source text.
 func c07Tool(args []string) int {
+	if len(args) > 1 && args[0] == "gen" {
+		return c07GenTool(args[1])
+	}
 	if len(args) > 0 && args[0] == "lexprobe" {
 		// lex every hex source line of stdin; "B i" before, "E i" after (flushed): the parent learns on which one we died
 		sc := bufio.NewScanner(os.Stdin)
@@ -630,6 +681,18 @@ func c07Tool(args []string) int {
 			fmt.Fprintf(w, "E %d\n", i)
 			w.Flush()
 		}
+		return 0
+	}
+	if len(args) > 1 && args[0] == "runfile" {
+		// run one source text read from a file (payloads too long for a command line)
+		b, err := os.ReadFile(args[1])
+		check(err)
+		t0 := time.Now()
+		res := c07Run(hx(string(b)) + " -")
+		if len(res) > 300 {
+			res = res[:300] + "…"
+		}
+		fmt.Println(res, time.Since(t0))
 		return 0
 	}
 	for _, a := range args {
